@@ -919,3 +919,18 @@ Proof.
   - rewrite E in HD. discriminate.
   - eapply (get_node_climbing fuel ml ch _ (S depth) ND E HD). exact R.
 Qed.
+
+(* ---- G. DirFS on a root that already has content ------------------------------------------------ *)
+
+(* with an lstat the overlay is the image of the root: every entry by its own kind *)
+Lemma mirror_lstat_id : forall h t cur, mirror false h cur t = t.
+Proof.
+  intro h. fix IH 1. intros t cur. destruct t as [|x|ch]; [reflexivity | reflexivity|].
+  simpl. f_equal. induction ch as [|[k x] r IHr]; [reflexivity|].
+  simpl. rewrite IH, IHr. reflexivity.
+Qed.
+
+Lemma xinit_is_lstat_image : forall b h, xinit_stat false b h = xinit b h.
+Proof.
+  intros b h. unfold xinit_stat, xinit. destruct (node_at h (cc b)); [rewrite mirror_lstat_id|]; reflexivity.
+Qed.
